@@ -570,6 +570,7 @@ func main() {
 	// Start run loop.
 	//=========================================================================
 	stepSecs := 3 * time.Second
+	stepSecs = verifStepInterval(stepSecs)
 	go runLoop(&pipestanceBox, stepSecs, c.config.VdrMode, c.noExit,
 		rt.LocalJobManager.Done())
 
